@@ -27,6 +27,15 @@ fn more_values() -> Vec<Value> {
         Value::text("1e0"),
         Value::text(" 1"),
         Value::text("2000-02-29 00:00:00"),
+        // instants that differ within one second / one minute (a conversion through a coarser text format merges them)
+        Value::time(chrono::NaiveTime::from_hms_micro_opt(12, 30, 15, 250_000).unwrap()),
+        Value::time(chrono::NaiveTime::from_hms_micro_opt(12, 30, 15, 750_000).unwrap()),
+        Value::time(chrono::NaiveTime::from_hms_opt(12, 30, 16).unwrap()),
+        Value::date_time(chrono::NaiveDate::from_ymd_opt(2010, 6, 1).unwrap().and_hms_micro_opt(10, 0, 0, 250_000).unwrap()),
+        Value::date_time(chrono::NaiveDate::from_ymd_opt(2010, 6, 1).unwrap().and_hms_micro_opt(10, 0, 0, 750_000).unwrap()),
+        Value::date_time(chrono::NaiveDate::from_ymd_opt(2010, 6, 1).unwrap().and_hms_opt(10, 0, 1).unwrap()),
+        Value::duration(chrono::Duration::milliseconds(30_250)),
+        Value::duration(chrono::Duration::milliseconds(30_750)),
     ]
 }
 
